@@ -22,13 +22,17 @@ func init() {
 			"R5 every nil return of the scan after a successful listing has completed the loop over the map that stops each client whose key is not in the set of listed keys (and only those), and every listed key enters that set; " +
 			"R7 every single-argument function the listing passes through before the start loop (and inside the listing helper) is the identity or a keyed de-duplication whose key includes every field of the manager's map key (Parent and ID), so a node keeps one entry per parent it appears under; " +
 			"R8 the node handed to the client-state constructor is an element of a listing fetched in the same scan/restart activation (followed through the scan/update split into the callers), never the node kept in an existing client state, a manager field or a package variable; " +
-			"R6 the stop channel of a client state is closed only inside sync.Once.Do of the same state, the manager's stop case stops every map value unless the map is empty, the main loop is left only with an empty map or in the guard-timer case, and the client state's run returns only after the stop request was received and forwarded to the client. " +
-			"Interleavings of store events with scans, construction from current points and the 5 s stop time-outs are not decided.",
+			"R6 the stop channel of a client state is closed only inside sync.Once.Do of the same state, the manager's stop case stops every map value unless the map is empty, the main loop is left only with an empty map or in the guard-timer case, and the client state's run returns only after the stop request was received and forwarded to the client; " +
+			"R9 the per-client subscription handler, evaluated (K4) on edge messages of one point and of two points (an ordinary edge point before or after), reaches the client state's stop on every path whenever the message holds a tombstone point (value 0 or 1) or a node-type point, for every author of the points (no origin, the client's own node, another node), on the client's own edge and on a descendant's; " +
+			"R10 on every path of the main loop, whenever the manager arrives at its select without a stop request, a case that waits on a timer and performs the scan on every path is pending (a timer made by the select itself, or a reusable timer / ticker that was armed and not stopped, drained or fired since). " +
+			"Interleavings of store events with scans, construction from current points, the 5 s stop time-outs and the length of the rescan period are not decided.",
 		Assumptions: []string{
 			"clients obey the Client contract: Run blocks until Stop is called and returns after it",
 			"the client-state map is confined to the manager goroutine (scan and the select loop run on it); channel sends from other goroutines are the only cross-goroutine events",
 			"NATS delivers the node-type / tombstone points that trigger a rescan",
 			"non-atom conditions are treated as nondeterministic (both edges explored)",
+			"R9 represents an edge message by one point, or by two points of which one is an ordinary edge point; a missed stop whose path passes a condition on the message the scenario does not decide is reported as undecided",
+			"R10 takes every armed timer, ticker and time.After channel to deliver after a finite time; the length of the rescan period is not judged",
 		},
 		Run: runC07,
 	})
@@ -46,6 +50,8 @@ func runC07(c *kit.Ctx) {
 	c07R6(c, m, c.Rule("R6", "stop idempotent and complete", 5))
 	c07R7(c, m, c.Rule("R7", "the listing keeps one entry per placement", 2))
 	c07R8(c, m, c.Rule("R8", "a client is constructed from a node fetched in the same activation", 1))
+	c07R9(c, m, c.Rule("R9", "a restart point stops the client whoever wrote it", 9))
+	c07R10(c, m, c.Rule("R10", "a periodic rescan is pending whenever the manager waits", 2))
 }
 
 func (m *cmModel) exitNames() string {
